@@ -509,7 +509,7 @@ theorem handle_ok (p : Peer) (op : Op) (hp : SI ps0 len0 N p)
           split
           · exact drop_ok hc _
           · exact hc
-  | mPiece i b stored K =>
+  | mPiece i b len n K =>
     simp only [handle]
     split
     · exact init rfl rfl rfl
@@ -522,7 +522,7 @@ theorem handle_ok (p : Peer) (op : Op) (hp : SI ps0 len0 N p)
           · rename_i rs q r hdel
             obtain ⟨hsub, _⟩ := del_spec (ro := false) hdel
             apply maybeRequest_ok
-            have hc : CtxOK ps0 len0 N (fun j => ∃ h, Op.mPiece i b stored K = .eHave j h)
+            have hc : CtxOK ps0 len0 N (fun j => ∃ h, Op.mPiece i b len n K = .eHave j h)
                 { p := { p with requests := rs } } :=
               CtxOK_init ⟨hp.1, hp.2.1, fun x hx => hp.2.2 x (hsub x hx)⟩
             split
